@@ -128,10 +128,84 @@ func genC06(tier string, rng *rand.Rand) []Script {
 	return out
 }
 
+// ---------- C15: timeouts fire, callbacks, never/slow/prompt receivers, no closes ----------
+
+var advanceShortS = Stim{Op: opAdvance, S: 1} // only past the deadlines of the 60ms subscribers
+
+func genC15(tier string, rng *rand.Rand) []Script {
+	var out []Script
+	L1, L2, R := 4, 3, 60
+	if tier == "thorough" {
+		L1, L2, R = 5, 4, 1200
+	}
+	add := func(tag string, st []Stim) {
+		out = append(out, Script{Family: "C15", Tags: []string{tag}, Stims: renumber(st)})
+	}
+	// corpus: the refutation witnesses of Findings/Pub.v (F11)
+	add("corpus-f11-onfiltered", []Stim{sub(0, 1, 2, 0, 2, true, true), pubS(0)})
+	add("corpus-f11-ontimeout", []Stim{sub(0, 0, 0, 0, 0, true, true), pubS(0), advanceS})
+	// two subscribers with very different timeouts (60ms vs 60s), both callbacks, nobody receives
+	add("two-timeouts", []Stim{sub(1, 0, 0, 0, 0, true, true), sub(1, 0, 0, 0, 2, true, true), pubS(0), pubS(0), pubS(0), advanceS})
+	// 60ms vs 160ms: after the short one expired the other one must still be pending
+	add("two-timeouts", []Stim{sub(0, 0, 0, 0, 0, true, true), sub(0, 0, 0, 0, 1, true, true), pubS(0), advanceShortS, recvS(1), pubS(0), advanceS})
+	// Publish with every buffer full and nobody receiving (60s timeouts): must return at once
+	{
+		st := []Stim{sub(2, 0, 0, 0, 2, true, true), sub(0, 0, 0, 0, 2, false, false), sub(1, 1, 2, 1, 2, true, false)}
+		for i := 0; i < 12; i++ {
+			st = append(st, pubS(0))
+		}
+		add("full-buffers", st)
+	}
+	// exhaustive, one subscriber with a 60ms timeout and both callbacks: Publish / TryReceive / Advance
+	for _, c := range []int{0, 1} {
+		for _, seq := range sequences([]Stim{pubS(0), recvS(0), advanceS}, L1) {
+			add("one-sub", append([]Stim{sub(c, 1, 2, 0, 0, true, true)}, seq...))
+		}
+	}
+	// exhaustive, two subscribers: s0 times out (60ms), s1 never does (60s); callbacks on s0 only / on both
+	type cfg struct {
+		c0, c1   int
+		f0, f1   filt
+		cb0, cb1 bool
+	}
+	for _, g := range []cfg{{1, 1, filtNil, filtOdd, true, true}, {0, 2, filtEven, filtNil, true, false}, {2, 0, filtNil, filtNil, false, true}} {
+		for _, seq := range sequences([]Stim{pubS(0), recvS(0), recvS(1), advanceS}, L2) {
+			add("two-subs", append([]Stim{sub(g.c0, g.f0.fk, g.f0.mod, g.f0.rem, 0, g.cb0, g.cb0),
+				sub(g.c1, g.f1.fk, g.f1.mod, g.f1.rem, 2, g.cb1, g.cb1)}, seq...))
+		}
+	}
+	// structured random
+	for i := 0; i < R; i++ {
+		ns := 2 + rng.Intn(3)
+		var st []Stim
+		for k := 0; k < ns; k++ {
+			f := randFilt(rng)
+			st = append(st, sub(rng.Intn(3), f.fk, f.mod, f.rem, rng.Intn(3), rng.Intn(3) > 0, rng.Intn(3) > 0))
+		}
+		n := 6 + rng.Intn(9)
+		for k := 0; k < n; k++ {
+			switch x := rng.Intn(20); {
+			case x < 9:
+				st = append(st, pubS(0))
+			case x < 17:
+				st = append(st, recvS(rng.Intn(ns)))
+			case x < 18:
+				st = append(st, advanceShortS)
+			default:
+				st = append(st, advanceS)
+			}
+		}
+		add("random", st)
+	}
+	return out
+}
+
 func generate(prop, tier string, rng *rand.Rand) []Script {
 	switch prop {
 	case "C06":
 		return genC06(tier, rng)
+	case "C15":
+		return genC15(tier, rng)
 	}
 	return nil
 }
@@ -143,6 +217,8 @@ func scopeText(prop, tier string, n int) string {
 			return fmt.Sprintf("%d scripts: every Publish/TryReceive sequence of length 8 for one subscriber (buffer 0,1,2 x no filter/even filter), every sequence of length 6 over {Publish,TryReceive s0,TryReceive s1} for 4 two-subscriber configurations, 3000 random scripts (2-4 subscribers, buffers 0-3, six filter kinds, late subscriber); each followed by a drain", n)
 		}
 		return fmt.Sprintf("%d scripts: every Publish/TryReceive sequence of length 5 for one subscriber (buffer 0,1,2 x no filter/even filter), every sequence of length 4 over {Publish,TryReceive s0,TryReceive s1} for 4 two-subscriber configurations, 120 random scripts (2-4 subscribers, buffers 0-3, six filter kinds, late subscriber); each followed by a drain", n)
+	case "C15":
+		return fmt.Sprintf("%d scripts: the two F11 witnesses, 60ms-vs-60s and 60ms-vs-160ms timeout pairs, Publish x12 into full buffers; every sequence of length %d over {Publish,TryReceive,Advance} for one subscriber with a 60ms timeout and both callbacks (buffer 0,1); every sequence of length %d over {Publish,TryReceive s0,TryReceive s1,Advance} for 3 two-subscriber configurations (s0 60ms, s1 60s); seeded random scripts (2-4 subscribers, buffers 0-2, timeouts 60ms/160ms/60s, callbacks present or nil); each followed by Advance + drain + a settled marker", n, map[string]int{"quick": 4, "thorough": 5}[tier], map[string]int{"quick": 3, "thorough": 4}[tier])
 	}
 	return ""
 }
